@@ -58,12 +58,13 @@ using namespace SymEngine;
 // gets std::bad_alloc / std::length_error (a std::exception = allowed outcome), but ASan's operator new
 // aborts the process instead ("allocation-size-too-big").  Replacing the replaceable operators by
 // malloc-based ones (ASan still instruments malloc/free: overflow and use-after-free detection is
-// unchanged) restores the real behaviour: a request above 64 MiB (units are <= 1 KiB), or a failed malloc, throws
+// unchanged) restores the real behaviour: a request above 4 MiB (units are <= 1 KiB), or a failed malloc, throws
 // std::bad_alloc.
-static const size_t kMaxNew = (size_t)1 << 26;
+static const size_t kMaxNew = (size_t)1 << 22;
+static bool g_cap_active = false; // only inside LLVMFuzzerTestOneInput (libFuzzer's own buffers are larger)
 static void *checked_alloc(size_t n)
 {
-    if (n > kMaxNew)
+    if (g_cap_active && n > kMaxNew)
         throw std::bad_alloc();
     void *p = malloc(n ? n : 1);
     if (!p)
@@ -80,11 +81,11 @@ void *operator new[](size_t n)
 }
 void *operator new(size_t n, const std::nothrow_t &) noexcept
 {
-    return n > kMaxNew ? nullptr : malloc(n ? n : 1);
+    return (g_cap_active && n > kMaxNew) ? nullptr : malloc(n ? n : 1);
 }
 void *operator new[](size_t n, const std::nothrow_t &) noexcept
 {
-    return n > kMaxNew ? nullptr : malloc(n ? n : 1);
+    return (g_cap_active && n > kMaxNew) ? nullptr : malloc(n ? n : 1);
 }
 void operator delete(void *p) noexcept
 {
@@ -1121,10 +1122,22 @@ extern "C" int LLVMFuzzerInitialize(int *argc, char ***argv)
     return 0;
 }
 
+struct CapGuard {
+    CapGuard()
+    {
+        g_cap_active = true;
+    }
+    ~CapGuard()
+    {
+        g_cap_active = false;
+    }
+};
+
 extern "C" int LLVMFuzzerTestOneInput(const uint8_t *data, size_t size)
 {
     fz::Stats &st = fz::stats();
     st.tick();
+    CapGuard cap;
     if (size < 1)
         return 0;
     if ((data[0] & 1) == 0) {
